@@ -49,7 +49,7 @@
        class named in a special row is the one of that signature). *)
 From Coq Require Import List String Ascii Bool Arith NArith ZArith.
 From PV Require Import Base.U32 Shape.ShapeImpl Shape.ShapeSpec Tensor.Kernels Tensor.FrontEnd Tensor.AdjCore Tensor.GraphInst.
-From PV Require Import Tables.OpSyntax Tables.OpUtil Tables.OpRows Tables.ApiModel Tables.ApiTable Tables.ApiFacts Tables.CompositeShapes.
+From PV Require Import Tables.OpSyntax Tables.OpUtil Tables.OpRows Tables.ApiModel Tables.ApiTable Tables.CompositeShapes.
 Import ListNotations.
 Local Open Scope string_scope.
 Local Open Scope bool_scope.
@@ -395,6 +395,14 @@ Definition bad_real_rows : list (string * string) :=
   map (fun r => (snd (fst (m_fn r)), match m_t r with RDev n _ _ => n | RTm n _ _ => n | RFun _ n _ _ => n | _ => "" end))
       (filter (fun r => negb (row_ok r)) api_table).
 
+(* function keys used by the proofs and examples *)
+Definition fk_input : fkey := ("functions", "input_tensor", ["Shape"; "vec<float>"; "Device*"]).
+Definition fk_add : fkey := ("functions", "add", ["X"; "X"]).
+Definition fk_mul : fkey := ("functions", "multiply", ["X"; "X"]).
+Definition fk_sub : fkey := ("functions", "subtract", ["X"; "X"]).
+Definition fk_split : fkey := ("functions", "split", ["X"; "u32"; "u32"]).
+Definition fk_concat : fkey := ("functions", "concat<X>", ["vec<X*>"; "u32"]).
+
 (* the Device entries / Tensor methods / operands / composites whose DATA the instance computes
    through the kernel index programs (the core family of Tensor/GraphInst.v) *)
 Definition core_entries : list string :=
@@ -717,10 +725,11 @@ Section Real.
     | _, _ => false
     end.
 
-  (* ---- the three runs of a program at the real instance (Tables/ApiFacts.v at api_table) *)
-  Definition real_eager := eager tensor shape attr tn_shape real_cond real_shape real_guard real_val.
-  Definition real_create := create shape attr real_cond real_shape.
-  Definition real_evaluate := evaluate tensor shape attr tn_shape real_cond real_shape real_guard real_val.
+  (* ---- the three runs of a program at the real instance (= eager / create / evaluate of
+     Tables/ApiFacts.v; written out so that this file depends on no proof) *)
+  Definition real_eager := eager_run tensor shape attr tn_shape real_cond real_shape real_guard real_val api_table.
+  Definition real_create := node_create_run shape attr real_cond real_shape api_table.
+  Definition real_evaluate := node_eval_run tensor shape attr tn_shape real_cond real_shape real_guard real_val api_table.
 End Real.
 
 Arguments AF {R}. Arguments AU {R}. Arguments AI {R}. Arguments AUs {R}. Arguments AFs {R}.
